@@ -106,6 +106,9 @@ struct vy {
     use_vyukov<xenium::vyukov_hash_map<int, std::string, p::reclaimer<R>>, int, std::string>(1, [] { return std::string("v"); });
     use_vyukov<xenium::vyukov_hash_map<std::string, int, p::reclaimer<R>>, std::string, int>("k", [] { return 2; });
     use_vyukov<xenium::vyukov_hash_map<std::string, std::string, p::reclaimer<R>>, std::string, std::string>("k", [] { return std::string("v"); });
+    // a configured hash that differs from the default, with a trivial and a non-trivial key (grow() re-hashes with the configured functor)
+    use_vyukov<xenium::vyukov_hash_map<int, int, p::reclaimer<R>, p::hash<colliding_hash>>, int, int>(1, [] { return 2; });
+    use_vyukov<xenium::vyukov_hash_map<std::string, int, p::reclaimer<R>, p::hash<colliding_hash>>, std::string, int>("k", [] { return 2; });
   }
 };
 template <class R>
